@@ -599,3 +599,37 @@ func vfParseTemplate(s string) ([]vfTok, error) {
 	}
 	return toks, nil
 }
+
+
+// ---- coverage-guided fuzzing (thorough tier) ---------------------------------
+// The same generators and oracles, driven by Go's native fuzzer through
+// rapid.MakeFuzz: the byte string chosen by the fuzzer is rapid's bit stream.
+
+func FuzzC20Diff(f *testing.F) {
+	st := engine.StatsFor("C20")
+	f.Add([]byte{})
+	f.Add([]byte("seed corpus: a few arbitrary bytes \x00\x01\x02\xff"))
+	f.Fuzz(rapid.MakeFuzz(func(rt *rapid.T) {
+		have, want := vfGenPair(rt)
+		st.Eval()
+		if err := vfCheckDiff(have, want); err != nil {
+			vfFail20(rt, "diff", have, want, err)
+		}
+	}))
+}
+
+func FuzzC20Match(f *testing.F) {
+	st := engine.StatsFor("C20")
+	f.Add([]byte{})
+	f.Add([]byte("0123456789abcdef0123456789abcdef"))
+	f.Fuzz(rapid.MakeFuzz(func(rt *rapid.T) {
+		toks, tmpl, have := vfGenTemplate(rt)
+		if !utf8.ValidString(have) {
+			rt.Skip()
+		}
+		st.Eval()
+		if _, err := vfCheckDiffMatch(toks, tmpl, have); err != nil {
+			vfFail20(rt, "match", have, tmpl, err)
+		}
+	}))
+}
